@@ -167,12 +167,18 @@ func c18R2(c *Ctx) {
 			continue
 		}
 		op, _, y, ok := cmpFact(normFact(fact{V: i.Cond, Pol: true}))
-		if !ok || op != token.EQL || !isConstIntV('=')(y) {
+		wholeString := false
+		if ok && op == token.EQL {
+			if sv, isS := constString(strip(y)); isS && sv == "=" {
+				wholeString = true // string(buf) == "=": length and byte in one comparison
+			}
+		}
+		if !ok || op != token.EQL || !(isConstIntV('=')(y) || wholeString) {
 			continue
 		}
 		found = true
 		fs := factsAt(b)
-		one := factCmp(fs, token.EQL, func(v ssa.Value) bool { lc, _ := callOf(v); return lc != nil && calleeID(&lc.Call) == "builtin len" }, isConstIntV(1))
+		one := wholeString || factCmp(fs, token.EQL, func(v ssa.Value) bool { lc, _ := callOf(v); return lc != nil && calleeID(&lc.Call) == "builtin len" }, isConstIntV(1))
 		c.check(one && isProto3(fs), "recvCheckV2/skip-keepalive.guard", c.ipos(i), "a payload of exactly '=' is recognised under protocol >= 3", "keep-alive recognition is not len==1 && '=' under protocol >= 3")
 		// the true edge reads again (reaches recvLine without returning)
 		hit, _ := reachFrom(b.Succs[0], 0, func(x ssa.Instruction) bool {
@@ -196,7 +202,13 @@ func c18R2(c *Ctx) {
 			return true, op == token.EQL
 		}}
 		isEq := assumption{val: true, cmp: func(op token.Token, x, y ssa.Value) (bool, bool) {
-			if (op != token.EQL && op != token.NEQ) || !isConstIntV('=')(y) {
+			if op != token.EQL && op != token.NEQ {
+				return false, false
+			}
+			if sv, isS := constString(strip(y)); isS && sv == "=" {
+				return true, op == token.EQL // string(payload) == "="
+			}
+			if !isConstIntV('=')(y) {
 				return false, false
 			}
 			return true, op == token.EQL
